@@ -15,6 +15,8 @@ import EdzedModel.Wiring
 import EdzedProofs.Wiring
 import EdzedModel.Gen.TranslatedSig
 import EdzedModel.Gen.TranslatedVblk
+import EdzedModel.Gen.TranslatedWiring
+import EdzedProofs.WiringTie
 
 namespace Edzed.Wiring
 
@@ -764,5 +766,93 @@ theorem translated_validate_blk_is_model (c : Circ) (r : Ref) :
       | none => rfl
       | num q k => rfl
       | str s => exact vblk_name c s _ rfl rfl
+
+/-! #### construction and finalisation (tools/py2lean_wiring.py regenerates the programs
+     `Gen.TrW.…` from the current source; EdzedProofs/WiringTie.lean interprets their primitives in the
+     model: `WiringTie.prims`).  Each theorem: running the translated method on ANY circuit gives
+     exactly the state and the error (or success) of the model's operation.  `KeysOK c`: the input
+     names of every CBlock are distinct -- they are the keys of a Python dict. -/
+
+open Edzed.WiringTie
+
+/-- `_is_multiple`: a group (any Sequence but str, or an iterator) is multiple, a single reference is
+    multiple exactly if it is a tuple / list value -/
+theorem translated_wiring_is_multiple (kd : BKind) (a : Inp) :
+    Gen.TrW.isMultiple (prims kd) a = (match a with
+      | .group _ => true
+      | .single r => r.isMultiple) := isMultiple_prims kd a
+
+theorem translated_wiring_check_not_finalized (kd : BKind) (c : Circ) :
+    Gen.TrW.checkNotFinalized (prims kd) c =
+      (c, match Wiring.checkNotFinalized c with
+          | Except.ok () => Except.ok ()
+          | Except.error e => Except.error (excOf e)) := checkNotFinalized_run kd c
+
+theorem translated_wiring_set_persistent_data (kd : BKind) (c : Circ) (d : Option Nat) :
+    Gen.TrW.setPersistentData (prims kd) d c = ofExcept c (Wiring.setStorage c d) :=
+  setPersistentData_run kd c d
+
+/-- the model's block creation = the name rules of `Block.__init__`, then the translated `addblock` -/
+theorem translated_wiring_addblock (kd : BKind) (c : Circ) (n : String) (reserved : Bool) :
+    Wiring.addBlock c n kd reserved =
+      if n.isEmpty then .error .valueError
+      else if startsUnderscore n && !reserved then .error .valueError
+      else match Gen.TrW.addblock (prims kd) n c with
+        | (c', .ok ()) => .ok c'
+        | (_, .error _) =>
+          match Wiring.checkNotFinalized c with
+          | .error e => .error e
+          | .ok () => .error .valueError := addblock_run kd c n reserved
+
+/-- `CBlock.connect(*pos, **named)` of a CBlock `b`: the translated statements (only-once rule, no
+    inputs, the reserved name, no sequence as positional input, the unnamed group stored as given,
+    every keyword argument stored as `tuple(inp)` if multiple and as is otherwise -- no other pass
+    over a keyword argument) ARE the model's `connect` -/
+theorem translated_wiring_connect (kd : BKind) (c : Circ) (b : String) (cls : CCls) (pos : List Ref)
+    (named : Inputs) (hb : c.kind b = some (.c cls)) (hnd : (named.map (·.1)).Nodup) :
+    Gen.TrW.connect (prims kd) b (pos.map Inp.single) named c = ofExcept c (Wiring.connect c b pos named) :=
+  connect_run kd c b cls pos named hb hnd
+
+/-- `_BlockResolver.register`, run for the holder object just created -/
+theorem translated_wiring_register (kd : BKind) (c : Circ) (r : SRef) (needS : Bool) :
+    Gen.TrW.register (prims kd) (c.slots.length, needS) (withSlots (c.slots ++ [⟨r, needS⟩]) c) =
+      match Wiring.register c r needS with
+      | .ok c' => (c', .ok ())
+      | .error e => (withSlots (c.slots ++ [⟨r, needS⟩]) c, .error (excOf e)) := register_run kd c r needS
+
+/-- `_BlockResolver.resolve`: every registration that holds a name, in order: resolve, check the
+    type, store; the first failure ends the loop with what was stored so far -/
+theorem translated_wiring_resolve (kd : BKind) (c : Circ) :
+    Gen.TrW.resolve (prims kd) c = ofState (Wiring.resolve c) := resolve_run kd c
+
+/-- `Circuit._finalize`: the translated loops ARE the model's two passes -- all CBlocks of a
+    snapshot, then all `Not` blocks of a snapshot taken AFTER the first pass (so that the inverters
+    it created are processed), per block: every input resolved and stored under its name, then
+    every non-Const input registered in `iconnections` and in the `oconnections` of the circuit's
+    block of that name -/
+theorem translated_wiring_finalize_inner (kd : BKind) (c : Circ) (hk : KeysOK c) :
+    Gen.TrW.finalizeInner (prims kd) c = ofState (Wiring.finalizeCore c) :=
+  (finalizeInner_run kd c hk).1
+
+/-- `Circuit.finalize`: nothing when finalized; otherwise resolver, `_finalize`, then the flag -/
+theorem translated_wiring_finalize (kd : BKind) (c : Circ) (hk : KeysOK c) :
+    Gen.TrW.finalize (prims kd) c = ofState (Wiring.finalize c) := finalize_run kd c hk
+
+/-- the start (`run_forever`) completes the wiring by the resolver FOLLOWED BY `finalize()` -- also
+    for a circuit that was finalized explicitly before (registrations made after that are resolved) --
+    and the model's `start` is built on exactly that prefix -/
+theorem translated_wiring_start (kd : BKind) (c : Circ) (hk : KeysOK c) :
+    Gen.TrW.startWiring (prims kd) c = ofState (startPrefix c) ∧
+    (c.stopped = false → c.order.isEmpty = false →
+      Wiring.start c = (match startPrefix c with
+        | (c2, some e) => ({ c2 with stopped := true }, some e)
+        | (c2, none) => ({ c2 with stopped := true }, Wiring.startBlocks c2 c2.order))) :=
+  ⟨startWiring_run kd c hk, start_uses_prefix c⟩
+
+/-- `KeysOK` is kept by everything the finalisation does -/
+theorem translated_wiring_keys_kept (c c' : Circ) (hk : KeysOK c) (h : Wiring.finalizeCore c = (c', none)) :
+    KeysOK c' := (finalizeInner_run (.s) c hk).2 c' h
+
+example : KeysOK {} := fun b cls h => by simp at h
 
 end Edzed.TrTie
